@@ -413,33 +413,39 @@ impl PersistBackend for FilePersist {
             return Ok(());
         }
 
-        // Handle WAL based on durability mode
-        match self.config.durability_mode {
-            DurabilityMode::Immediate => {
-                // Write to WAL with immediate sync (safest)
-                #[cfg(feature = "verif-hooks")]
-                vh::before_lock("persist.append.wal", &|| self.wal.is_locked());
-                let mut wal = self.wal.lock();
-                wal.append_batch(shard, updates)?;
-            }
-            DurabilityMode::Batched => {
-                // Write to WAL without sync (faster, batched durability)
-                #[cfg(feature = "verif-hooks")]
-                vh::before_lock("persist.append.wal", &|| self.wal.is_locked());
-                let mut wal = self.wal.lock();
-                wal.append_batch_buffered(shard, updates)?;
-            }
-            DurabilityMode::Async => {
-                // Skip WAL entirely for maximum speed (in-memory only until flush).
-                // Data WILL be lost on crash. Only use for ephemeral/reproducible data.
-            }
-        }
-
-        // Add to buffer
+        // The WAL append and the buffer insertion happen under the shard-map lock. flush()
+        // holds that lock while it writes the buffer to a batch file and then removes ALL of
+        // the shard's WAL entries: an append that had reached the WAL but not yet the buffer
+        // would lose its WAL entry there and live on in memory only - acknowledged, but gone
+        // after a crash. (Lock order shards -> wal, the same as in flush.)
         let should_flush = {
             #[cfg(feature = "verif-hooks")]
             vh::before_lock("persist.append.shards", &|| self.shards.is_locked());
             let mut shards = self.shards.write();
+
+            // Handle WAL based on durability mode
+            match self.config.durability_mode {
+                DurabilityMode::Immediate => {
+                    // Write to WAL with immediate sync (safest)
+                    #[cfg(feature = "verif-hooks")]
+                    vh::before_lock("persist.append.wal", &|| self.wal.is_locked());
+                    let mut wal = self.wal.lock();
+                    wal.append_batch(shard, updates)?;
+                }
+                DurabilityMode::Batched => {
+                    // Write to WAL without sync (faster, batched durability)
+                    #[cfg(feature = "verif-hooks")]
+                    vh::before_lock("persist.append.wal", &|| self.wal.is_locked());
+                    let mut wal = self.wal.lock();
+                    wal.append_batch_buffered(shard, updates)?;
+                }
+                DurabilityMode::Async => {
+                    // Skip WAL entirely for maximum speed (in-memory only until flush).
+                    // Data WILL be lost on crash. Only use for ephemeral/reproducible data.
+                }
+            }
+
+            // Add to buffer
             let state = shards
                 .entry(shard.to_string())
                 .or_insert_with(|| ShardState {
